@@ -440,6 +440,11 @@ def _as_term(o):
     if isinstance(o, (bool, _np.bool_, _real_int, _np.integer)):
         return iv(o), True
     if isinstance(o, (_real_float, _np.floating)):
+        f = _real_float(o)
+        if f != f or f in (_real_float('inf'), -_real_float('inf')):
+            # NaN / Inf constants (e.g. "no data" markers) are outside real arithmetic: anything computed
+            # from them is a poison value, reported like uninitialised memory if it reaches an output
+            return uninit().t, False
         return rv(o), False
     return None
 
